@@ -145,6 +145,8 @@ U16(S, o) == Byte(S, o) * 256 + Byte(S, o + 1)
 U32(S, o) == IF Byte(S, o) >= 32 THEN Huge
              ELSE Byte(S, o) * 16777216 + Byte(S, o + 1) * 65536 + Byte(S, o + 2) * 256 + Byte(S, o + 3)
 
+(* decode result of one frame; `oob` is kept for the record shape only: out-of-range reads of the model are
+   asserted in Byte / Region and stop TLC *)
 Rej(free, oob, hint) == [ok |-> FALSE, free |-> free, oob |-> oob, hint |-> hint, f |-> <<>>]
 Acc(fr, hint)        == [ok |-> TRUE,  free |-> FALSE, oob |-> FALSE, hint |-> hint, f |-> <<fr>>]
 
